@@ -59,6 +59,14 @@ CHECKS = {
         "including requests queued behind a pending lookup and unrelated receptions in between, anywhere on the globe.",
         "Sampled histories (<= 16 steps, <= 4 stations, full mesh); security off (secured delivery is C03/C05); SCF cleared; no verdict in the geometry band.",
     ),
+    "C19": (
+        "differential against independent reference implementations: exhaustive boundary sequences (reactive) and hypothesis sequences (adaptive, gate keeper)",
+        "The reactive machine is enumerated over all sequences of boundary representatives of both Annex A tables from every start state up to "
+        "a length bound and compared with a reference machine and with the statement's invariants; delta is recomputed per clause 5.4 eq. 1-6 "
+        "for drawn parameter sets and CBR sequences; the gate keeper is driven by drawn arrival/update/probe sequences placed at and around the "
+        "reference opening times of eq. B.1/B.2.",
+        "Annex A values as transcribed in vf/props/c19.py (identical to what the repository's unit tests pin); 2 ns no-verdict window around gate opening times.",
+    ),
 }
 
 NOT_APPLICABLE = {
